@@ -42,3 +42,11 @@ C("C15", "exploration",
   "monotone in nadir angle; lattice-wide convergence with the step.",
   "finite lattice; the bound is the derived first-order trapezoid error, so a defect smaller than it is by the property's own wording not a violation",
   "DESIGN.md §4 C15")
+C("C19", "model_checking",
+  "explicit enumeration of all detector expression trees up to a size bound on the real classes, compared with a flat-list reference model after every operation",
+  "Every leaf sequence of length 1..3 (+ a reduced 4-leaf layer; thorough: all of length 4) over six leaf kinds (two Detector subclasses with "
+  "different build/trigger signatures, a nesting Grid, bare antenna, antenna list, AntennaSystem) x every parenthesisation x every assignment "
+  "of + / += to the internal nodes (and sum()) x 5 keyword sets is built with the real classes; list/len/index must equal the flat "
+  "construction-order list, keyword arguments must reach exactly the sub-detectors that accept them, and for every hit pattern (all 2^n "
+  "for n<=5) trigger == any(hit) (also by MC truth), clear empties everything; antennas above the surface are rejected for every leaf kind.",
+  "leaf detectors have explicit signatures (no **kwargs); an unknown keyword may be refused or dropped", "DESIGN.md §4 C19")
